@@ -87,11 +87,28 @@ def run_telingo(program, horizon, timeout=120, errlen=400, models=0):
             if int(m.group(1)) == 0:
                 cur = []
                 models.append(cur)
-            state = set(m.group(2).split())
+            state = set(split_atoms(m.group(2)))
             if cur is not None:
                 cur.append(state)
             continue
         if line.startswith('  ') and state is not None:
-            state.update(line.split())
+            state.update(split_atoms(line))
     models = [m for m in models if len(m) == horizon]
     return ('ok', models)
+
+
+def split_atoms(line):
+    """the atoms of one line of telingo's output: separated by blanks, but a blank inside a quoted value belongs to the value"""
+    atoms, cur, quoted = [], '', False
+    for ch in line:
+        if ch == '"':
+            quoted = not quoted
+        if ch.isspace() and not quoted:
+            if cur:
+                atoms.append(cur)
+            cur = ''
+        else:
+            cur += ch
+    if cur:
+        atoms.append(cur)
+    return atoms
